@@ -271,3 +271,98 @@ Theorem cached_marshalling_sends_stale_body :
 Proof.
   exists [SetValue (bs "one"); SendNow; SetValue (bs "two"); SendNow]. vm_compute. discriminate.
 Qed.
+
+(* ---------- round 6 ---------- *)
+(* a cookie the caller adds between two executions survives the un-merging of the client's cookies:
+   the second execution carries the request's cookies, the added ones, then the client's - each once *)
+Lemma skipn_two_apps {A} (a b c : list A) : skipn (length a + length b) (a ++ b ++ c) = c.
+Proof. induction a as [|x a IH]; [cbn [length app Nat.add]; apply skipn_app_exact|exact IH]. Qed.
+
+Theorem reexecution_keeps_added_cookies : forall (A : Type) (rck cck added cck' : list A),
+  unmerge_cookies (length rck) (length cck) (rck ++ cck ++ added) ++ cck' = rck ++ added ++ cck'.
+Proof.
+  intros A rck cck added cck'. unfold unmerge_cookies.
+  rewrite firstn_app_exact, skipn_two_apps. rewrite <- app_assoc. reflexivity.
+Qed.
+
+Theorem truncating_unmerge_drops_added_cookies : forall (A : Type) (rck cck added : list A),
+  unmerge_cookies_truncating (length rck) (rck ++ cck ++ added) = rck.
+Proof. intros. unfold unmerge_cookies_truncating. apply firstn_app_exact. Qed.
+
+(* the HTTP/3 replay rule: whenever a request is sent again as it is, what it carries is what was
+   described (there is no body to lose); accepting GetBody without calling it is not safe *)
+Theorem h3_replay_carries_the_described_body : forall has_body idem body,
+  h3_replayable has_body idem = true -> (has_body = false -> body = []) -> h3_replay_body body = body.
+Proof.
+  intros hb idem body H Hb. unfold h3_replayable in H. apply andb_true_iff in H as [H _].
+  apply negb_true_iff in H. rewrite (Hb H). reflexivity.
+Qed.
+
+Theorem h3_replay_with_getbody_loses_the_body :
+  exists body, h3_replayable_getbody true true true = true /\ h3_replay_body body <> body.
+Proof. exists (bs "x"). split; [reflexivity|discriminate]. Qed.
+
+(* the content type that selects the marshaller is the content type that is sent *)
+Lemma hget_none_filter (f : kv -> bool) h k : hget h k = None -> hget (filter f h) k = None.
+Proof.
+  induction h as [|x h IH]; [reflexivity|]. cbn [hget filter].
+  destruct (bytes_eqb (fst x) k) eqn:E; [discriminate|]. intros H.
+  destruct (f x); [cbn [hget]; rewrite E|]; auto.
+Qed.
+
+Lemma hget_some_in h k vs : hget h k = Some vs -> exists x, In x h /\ bytes_eqb (fst x) k = true /\ snd x = vs.
+Proof.
+  induction h as [|x h IH]; [discriminate|]. cbn [hget]. destruct (bytes_eqb (fst x) k) eqn:E.
+  - intros [= <-]. exists x. repeat split; [left; reflexivity|exact E].
+  - intros H. destruct (IH H) as (y & Hy & Ey & Es). exists y. repeat split; [right; exact Hy|exact Ey|exact Es].
+Qed.
+
+Lemma hget_none_has_hkey h k : hget h k = None -> has_hkey k h = false.
+Proof.
+  induction h as [|x h IH]; [reflexivity|]. cbn [hget]. unfold has_hkey. cbn [existsb].
+  destruct (bytes_eqb (fst x) k); [discriminate|]. intros H. apply IH. exact H.
+Qed.
+
+Theorem marshaller_follows_the_sent_content_type : forall rh ch,
+  NoDup (map fst rh) ->
+  (forall v vs, hget rh content_type = Some (v :: vs) -> v <> []) ->
+  marshal_ct rh ch = header_get (merge_headers rh ch) content_type.
+Proof.
+  intros rh ch Hnd Hfirst. unfold marshal_ct, header_get, hvals.
+  change (canonical_key content_type) with content_type.
+  unfold merge_headers.
+  destruct (hget rh content_type) as [[|v vs]|] eqn:Er.
+  - (* the request holds the key without a value *)
+    cbn [is_nil].
+    destruct (hget ch content_type) as [cvs|] eqn:Ec.
+    + rewrite hget_app_r.
+      * rewrite (hget_filter_keep _ ch content_type cvs Ec); [reflexivity|].
+        intros y Hy Ek _. apply bytes_eqb_eq in Ek. rewrite Ek. unfold hvals. rewrite Er. reflexivity.
+      * apply hget_filter_drop. intros y Hy Ek. apply negb_false_iff. apply andb_true_iff.
+        apply bytes_eqb_eq in Ek. split.
+        -- rewrite <- Ek in Er. rewrite (hget_in_nodup rh y Hnd Hy) in Er. inversion Er as [E]. rewrite E. reflexivity.
+        -- destruct (hget_some_in ch content_type cvs Ec) as (x & Hx & Ex & _).
+           apply (has_hkey_in _ ch x Hx). rewrite Ek. exact Ex.
+    + rewrite hget_app_l with (vs := []).
+      * reflexivity.
+      * apply hget_filter_keep; [exact Er|]. intros y Hy Ek _. apply negb_true_iff. apply andb_false_iff. right.
+        apply bytes_eqb_eq in Ek. rewrite Ek. apply hget_none_has_hkey. exact Ec.
+  - (* the request has its own content type *)
+    specialize (Hfirst v vs eq_refl). destruct v as [|c v]; [congruence|]. cbn [is_nil].
+    rewrite hget_app_l with (vs := (c :: v) :: vs); [reflexivity|].
+    apply hget_filter_keep; [exact Er|]. intros y Hy Ek Es. rewrite Es. reflexivity.
+  - (* only the client may have one *)
+    cbn [is_nil]. rewrite hget_app_r by (apply hget_none_filter; exact Er).
+    destruct (hget ch content_type) as [cvs|] eqn:Ec.
+    + rewrite (hget_filter_keep _ ch content_type cvs Ec); [reflexivity|].
+      intros y Hy Ek _. apply bytes_eqb_eq in Ek. rewrite Ek. unfold hvals. rewrite Er. reflexivity.
+    + rewrite hget_none_filter by exact Ec. reflexivity.
+Qed.
+
+(* asking the client first picks a marshaller for a content type that is not the one sent *)
+Theorem client_first_marshaller_mismatch :
+  exists rh ch, marshal_ct_client_first rh ch <> header_get (merge_headers rh ch) content_type.
+Proof.
+  exists [(bs "Content-Type", [bs "application/json"])], [(bs "Content-Type", [bs "application/xml"])].
+  vm_compute. discriminate.
+Qed.
